@@ -716,6 +716,12 @@ func (w *verifWorld) addr(vs *verifSess, t string, asChan bool) string {
 	switch {
 	case t == "me" || t == "fnd" || t == "sys":
 		return t
+	case strings.HasPrefix(t, "fnd:") || strings.HasPrefix(t, "me:"):
+		// somebody's (possibly another user's) search / self topic by its raw name
+		if c := w.canon(t); c != "" {
+			return c
+		}
+		return "fndNOSUCHUSER"
 	case strings.HasPrefix(t, "p"): // p12 = p2p between u1 and u2
 		a, b := "u"+t[1:2], "u"+t[2:3]
 		other := a
